@@ -438,7 +438,13 @@ package lisp
 //@   ensures  [frames-below-keep-their-flags] FLAGS(env)
 //@   assert-at checkLimits [a-limit-error-is-located-at-the-form-being-evaluated] env.loc == local("v").source
 //@   assert-at return [what-a-list-form-evaluates-to-is-its-call-value-never-an-unevaluated-expansion] called("evalSExpr") ==> (arg0 == ret("evalSExpr", 0) && arg0.Type != LMarkMacExpand) || arg0.Type == LError
-//@   property C05 C04 C06 C18 C09 C07
+//@   assert-at return~return_v#1 [a-quoted-value-evaluates-to-itself] arg0 == local("v") && arg0.quoted
+//@   assert-at Get~return_env.Get(v) [an-unqualified-symbol-is-resolved-through-this-environment] arg0 == env && arg1 == local("v") && arg1.Type == LSymbol && !arg1.quoted && ext("strings.IndexByte", 0, arg1.Str, 58) < 0
+//@   assert-at return~return_env.Get(v) [the-binding-found-is-the-value] arg0 == ret("Get", 0)
+//@   assert-at return~return_v#2 [a-keyword-evaluates-to-itself] arg0 == local("v") && arg0.Type == LSymbol && ext("strings.IndexByte", 0, arg0.Str, 58) == 0
+//@   assert-at return~return_v#3 [every-other-atom-evaluates-to-itself] arg0 == local("v") && arg0.Type != LSymbol && arg0.Type != LSExpr && arg0.Type != LQuote && !arg0.quoted
+//@   assert-at evalSExpr [only-an-unquoted-list-form-is-called] arg0 == env && arg2 == local("v") && arg2.Type == LSExpr && !arg2.quoted && !arg2.spliced
+//@   property C05 C04 C06 C18 C09 C07 C01
 
 //@ func (*LEnv).evalSExpr
 //@   keeps LVal.sealed
@@ -469,7 +475,15 @@ package lisp
 //@   ensures-on-panic [loc-restored-on-panic] env.loc == old(env.loc)
 //@   ensures  [frames-below-keep-their-flags] FLAGS(env)
 //@   ensures-on-panic [frames-below-keep-their-flags-on-panic] FLAGS(env)
-//@   property C05 C18 C02 C09
+//@   ghost    nevl : int
+//@   counts   nevl eval
+//@   assert-at eval#1 [the-head-of-the-form-is-evaluated-first-in-this-environment] arg0 == env && arg2 == old(s.Cells[0]) && nevl == old(nevl)
+//@   loop 1 (rangeindex) invariant [one-evaluation-per-element-so-far-and-one-collected-value-each] nevl == old(nevl) + rangeindex + 2 && len(newCells) == rangeindex + 2
+//@   assert-at eval#2 [arguments-are-evaluated-left-to-right-each-exactly-once-in-this-environment] arg0 == env && arg2 == old(s.Cells)[nevl - old(nevl)] && nevl - old(nevl) == loopvar(1) + 2
+//@   assert-at return~return_v [a-failing-argument-ends-the-evaluation-and-is-the-result] arg0 == ret("eval#2", 0) && arg0.Type == LError
+//@   assert-at return~return_f [a-failing-head-is-the-result-and-no-argument-is-evaluated] arg0 == ret("eval#1", 0) && arg0.Type == LError && nevl == old(nevl) + 1
+//@   assert-at return~return_SExpr(newCells)#2 [the-call-value-holds-the-function-and-one-value-per-argument] arg0 != nil && len(arg0.Cells) == old(len(s.Cells)) && nevl == old(nevl) + old(len(s.Cells))
+//@   property C05 C18 C02 C09 C01
 
 //@ func (*LEnv).funCall
 //@   keeps LVal.sealed
@@ -1200,3 +1214,144 @@ package lisp
 //@   assert-at Get [looks-the-export-up-in-the-named-package] arg0 == env.Runtime.Registry.packages[name.Str] && arg1.Str == arg0.externals[loopvar(1) + 1]
 //@   assert-at Put [binds-the-same-name-to-the-looked-up-value-in-the-current-package] arg0 == env.Runtime.Package && arg1.Str == env.Runtime.Registry.packages[name.Str].externals[loopvar(1) + 1] && arg2 == ret("Get", 0)
 //@   property C08
+
+// ---------------------------------------------------------------- C01: evaluation rules of the core special operators
+// Each rule of the language reference is stated on the operator that
+// implements it: which sub-form is evaluated, in which order, under which
+// guard, and what the operator hands back (an error by identity, or a
+// terminal mark for the value-position form, evaluated by specialOpCall).
+
+//@ pred truthy(v) = !(v.Type == LSExpr && len(v.Cells) == 0) && !(v.Type == LSymbol && v.Str == FalseSymbol)
+//@ pred tailmark(r, env, form) = r != nil && r.Type == LMarkTerminal && fresh(r) && len(r.Cells) == 1 && r.Cells[0] == form && typeis(r.Native, *LEnv) && r.Native.(*LEnv) == env
+
+//@ func opIf
+//@   requires rtOK(env) && argsOK(s, 0)
+//@   ghost    nev : int
+//@   counts   nev Eval
+//@   ensures  [wrong-arity-is-an-error-and-nothing-is-evaluated] old(len(s.Cells)) != 3 ==> result.Type == LError && nev == old(nev)
+//@   ensures  [the-test-is-evaluated-exactly-once] old(len(s.Cells)) == 3 ==> nev == old(nev) + 1
+//@   assert-at Eval [the-test-form-is-the-first-argument-in-this-environment] arg0 == env && arg1 == old(s.Cells[0])
+//@   ensures  [a-failing-test-is-the-result] old(len(s.Cells)) == 3 && ret("Eval", 0).Type == LError ==> result == ret("Eval", 0)
+//@   ensures  [a-true-test-selects-the-second-argument-in-tail-position] old(len(s.Cells)) == 3 && ret("Eval", 0).Type != LError && truthy(ret("Eval", 0)) ==> tailmark(result, env, s.Cells[1])
+//@   ensures  [a-false-test-selects-the-third-argument-in-tail-position] old(len(s.Cells)) == 3 && ret("Eval", 0).Type != LError && !truthy(ret("Eval", 0)) ==> tailmark(result, env, s.Cells[2])
+//@   property C01 C02
+
+//@ func opProgn
+//@   uses singletons
+//@   requires rtOK(env) && argsOK(args, 0)
+//@   ghost    nev : int
+//@   counts   nev Eval
+//@   ensures  [an-empty-sequence-is-nil] old(len(args.Cells)) == 0 ==> result == singletonNil && nev == old(nev)
+//@   loop 1 (rangeindex) invariant [idx] -1 <= rangeindex && rangeindex < old(len(args.Cells)) - 1
+//@   loop 1 (rangeindex) invariant [one-evaluation-per-leading-form-so-far] nev == old(nev) + rangeindex + 1
+//@   assert-at Eval [the-k-th-evaluation-is-of-the-k-th-form-in-this-environment] arg0 == env && arg1 == old(args.Cells)[nev - old(nev)] && nev - old(nev) < old(len(args.Cells)) - 1
+//@   assert-at return~return_val [a-failing-form-ends-the-sequence-and-is-the-result] arg0 == ret("Eval", 0) && arg0.Type == LError
+//@   assert-at return~return_env.Terminal(term) [every-leading-form-was-evaluated-and-the-last-form-is-in-tail-position] nev == old(nev) + old(len(args.Cells)) - 1 && tailmark(arg0, env, old(args.Cells[len(args.Cells)-1]))
+//@   property C01 C02
+
+//@ func opOr
+//@   uses singletons
+//@   requires rtOK(env) && argsOK(s, 0)
+//@   ghost    nev : int
+//@   counts   nev Eval
+//@   ensures  [an-empty-or-is-false] old(len(s.Cells)) == 0 ==> result == singletonFalse && nev == old(nev)
+//@   loop 1 (rangeindex) invariant [idx] -1 <= rangeindex && rangeindex < old(len(s.Cells)) - 1
+//@   loop 1 (rangeindex) invariant [one-evaluation-per-leading-form-so-far] nev == old(nev) + rangeindex + 1
+//@   assert-at Eval [the-k-th-evaluation-is-of-the-k-th-form-in-this-environment] arg0 == env && arg1 == old(s.Cells)[nev - old(nev)] && nev - old(nev) < old(len(s.Cells)) - 1
+//@   assert-at return~return_r#1 [a-failing-form-is-the-result] arg0 == ret("Eval", 0) && arg0.Type == LError
+//@   assert-at return~return_r#2 [the-first-true-value-is-the-result-and-nothing-after-it-is-evaluated] arg0 == ret("Eval", 0) && arg0.Type != LError && truthy(arg0)
+//@   assert-at return~return_env.Terminal(term) [every-leading-form-was-evaluated-and-the-last-form-is-in-tail-position] nev == old(nev) + old(len(s.Cells)) - 1 && tailmark(arg0, env, old(s.Cells[len(s.Cells)-1]))
+//@   property C01 C02
+
+//@ func opAnd
+//@   uses singletons
+//@   requires rtOK(env) && argsOK(s, 0)
+//@   ghost    nev : int
+//@   counts   nev Eval
+//@   ensures  [an-empty-and-is-true] old(len(s.Cells)) == 0 ==> result == singletonTrue && nev == old(nev)
+//@   loop 1 (rangeindex) invariant [idx] -1 <= rangeindex && rangeindex < old(len(s.Cells))
+//@   loop 1 (rangeindex) invariant [one-evaluation-per-form-so-far] nev == old(nev) + rangeindex + 1
+//@   loop 1 (rangeindex) invariant [every-value-so-far-was-true] rangeindex >= 0 ==> r != nil && r.Type != LError && truthy(r)
+//@   assert-at Eval [the-k-th-evaluation-is-of-the-k-th-form-in-this-environment] arg0 == env && arg1 == old(s.Cells)[nev - old(nev)]
+//@   assert-at return~return_r#1 [a-failing-form-is-the-result] arg0 == ret("Eval", 0) && arg0.Type == LError
+//@   assert-at return~return_r#2 [the-first-false-value-is-the-result-and-nothing-after-it-is-evaluated] arg0 == ret("Eval", 0) && arg0.Type != LError && !truthy(arg0)
+//@   assert-at return~return_r#3 [every-form-was-evaluated-and-was-true] nev == old(nev) + old(len(s.Cells)) && arg0.Type != LError && truthy(arg0)
+//@   property C01
+
+//@ func opQuote
+//@   requires rtOK(env) && argsOK(args, 0)
+//@   ghost    nev : int
+//@   counts   nev Eval
+//@   ensures  [nothing-is-evaluated] nev == old(nev)
+//@   ensures  [wrong-arity-is-an-error] old(len(args.Cells)) != 1 ==> result.Type == LError
+//@   ensures  [an-unquoted-datum-comes-back-as-a-quoted-copy-with-the-same-contents] old(len(args.Cells)) == 1 && !old(args.Cells[0].quoted) ==> fresh(result) && result.quoted && result.Type == old(args.Cells[0].Type) && result.Str == old(args.Cells[0].Str) && result.Int == old(args.Cells[0].Int) && result.Cells == old(args.Cells[0].Cells) && result.Native == old(args.Cells[0].Native)
+//@   ensures  [a-quoted-datum-is-wrapped-once-more] old(len(args.Cells)) == 1 && old(args.Cells[0].quoted) ==> fresh(result) && result.quoted && result.Type == LQuote && len(result.Cells) == 1 && result.Cells[0] == old(args.Cells[0])
+//@   modifies nothing
+//@   property C01
+
+//@ func opSetUpdate
+//@   requires rtOK(env) && argsOK(args, 2)
+//@   ghost    nev : int
+//@   counts   nev Eval
+//@   ghost    nup : int
+//@   counts   nup Update
+//@   ensures  [a-non-symbol-target-is-an-error-and-nothing-is-evaluated] old(args.Cells[0].Type) != LSymbol ==> result.Type == LError && nev == old(nev) && nup == old(nup)
+//@   assert-at Eval [the-value-form-is-the-second-argument-in-this-environment] arg0 == env && arg1 == old(args.Cells[1])
+//@   assert-at return~return_val [a-failing-value-form-is-the-result-and-nothing-is-assigned] arg0 == ret("Eval", 0) && arg0.Type == LError && nup == old(nup)
+//@   assert-at Update [assigns-the-evaluated-value-to-the-named-symbol-through-the-scope-chain] arg0 == env && arg1 == old(args.Cells[0]) && arg2 == ret("Eval", 0) && arg2.Type != LError
+//@   ensures  [at-most-one-evaluation-and-one-assignment] nev <= old(nev) + 1 && nup <= old(nup) + 1
+//@   property C01
+
+//@ pred isElse(b) = b.Cells[0].Type == LSymbol && b.Cells[0].Str == "else"
+
+//@ func opCond
+//@   uses singletons
+//@   requires rtOK(env) && argsOK(args, 0)
+//@   loop 1 (rangeindex) invariant [idx] -1 <= rangeindex && rangeindex < old(len(args.Cells))
+//@   assert-at Eval [a-test-is-the-head-of-the-current-clause-evaluated-in-this-environment] arg0 == env && arg1 == old(args.Cells)[loopvar(1)+1].Cells[0] && !isElse(old(args.Cells)[loopvar(1)+1])
+//@   assert-at return~return_test [only-a-failing-test-is-returned-as-such] arg0.Type == LError
+//@   assert-at opProgn [a-body-is-sequenced-only-for-a-test-that-is-true-and-in-this-environment] arg0 == env && truthy(local("test")) && local("test").Type != LError
+//@   assert-at opProgn [the-body-is-a-private-list-header] arg1 != nil && fresh(arg1) && arg1.Type == LSExpr
+//@   assert-at opProgn [the-body-is-the-rest-of-the-current-clause] len(arg1.Cells) == len(rangeval(1).Cells) - 1 && off(arg1.Cells) == off(rangeval(1).Cells) + 1
+//@   assert-at opProgn [the-body-shares-the-clauses-cells] len(arg1.Cells) > 0 ==> arr(arg1.Cells) == arr(rangeval(1).Cells)
+//@   assert-at return~return_opProgn [the-value-of-that-body-is-the-result] arg0 == ret("opProgn", 0)
+//@   assert-at return~return_Nil() [no-clause-selected-is-nil] arg0 == singletonNil
+//@   property C01 C02
+
+// let: every init form is evaluated (in order, in the new and still empty
+// scope, whose parent is the current environment) before any name is bound;
+// then each name is bound in the new scope; the body is sequenced there.
+//@ func opLet
+//@   requires rtOK(env) && argsOK(args, 1)
+//@   ghost    nev : int
+//@   counts   nev Eval
+//@   ghost    nput : int
+//@   counts   nput Put
+//@   assert-at newEnvN [the-new-scope-is-a-child-of-the-current-environment] arg0 == env
+//@   loop 1 (rangeindex) invariant [idx] -1 <= rangeindex
+//@   loop 1 (rangeindex) invariant [one-evaluation-per-binding-so-far-and-nothing-bound-yet] nev == old(nev) + rangeindex + 1 && nput == old(nput)
+//@   loop 2 (rangeindex) invariant [idx] -1 <= rangeindex
+//@   loop 2 (rangeindex) invariant [one-name-bound-per-binding-so-far] nput == old(nput) + rangeindex + 1
+//@   assert-at Eval [an-init-form-is-evaluated-in-the-new-scope-before-any-name-is-bound] arg0 == ret("newEnvN", 0) && arg1 == rangeval(1).Cells[1] && nput == old(nput)
+//@   assert-at Put [a-name-is-bound-in-the-new-scope-only] arg0 == ret("newEnvN", 0) && arg1 == rangeval(2).Cells[0]
+//@   assert-at opProgn [the-body-is-sequenced-in-the-new-scope] arg0 == ret("newEnvN", 0) && arg1 == args
+//@   assert-at return~return_opProgn [the-value-of-the-body-is-the-result] arg0 == ret("opProgn", 0)
+//@   property C01
+
+// let*: each init form is evaluated in the new scope after the earlier names
+// have been bound there, and its own value is what its name is bound to.
+//@ func opLetSeq
+//@   requires rtOK(env) && argsOK(args, 1)
+//@   ghost    nev : int
+//@   counts   nev Eval
+//@   ghost    nput : int
+//@   counts   nput Put
+//@   assert-at newEnvN [the-new-scope-is-a-child-of-the-current-environment] arg0 == env
+//@   loop 1 (rangeindex) invariant [idx] -1 <= rangeindex
+//@   loop 1 (rangeindex) invariant [every-earlier-binding-is-evaluated-and-bound] nev == old(nev) + rangeindex + 1 && nput == old(nput) + rangeindex + 1
+//@   assert-at Eval [an-init-form-is-evaluated-in-the-new-scope-after-the-earlier-names-are-bound] arg0 == ret("newEnvN", 0) && arg1 == rangeval(1).Cells[1] && nput - old(nput) == nev - old(nev)
+//@   assert-at Put [the-name-is-bound-to-the-value-of-its-own-init-form-in-the-new-scope] arg0 == ret("newEnvN", 0) && arg1 == rangeval(1).Cells[0] && arg2 == ret("Eval", 0) && arg2.Type != LError
+//@   assert-at return~return_val [a-failing-init-form-is-the-result] arg0 == ret("Eval", 0) && arg0.Type == LError
+//@   assert-at opProgn [the-body-is-sequenced-in-the-new-scope] arg0 == ret("newEnvN", 0) && arg1 == args
+//@   assert-at return~return_opProgn [the-value-of-the-body-is-the-result] arg0 == ret("opProgn", 0)
+//@   property C01
